@@ -23,7 +23,7 @@ RULES = {
            "civil times resolved through O-ZONE ('pre' reading, skipped/repeated included); both directions of acceptance and the "
            "instant compared; (b) random/malformed (format, input) pairs incl. formatted instants with byte edits - sanitizers only. "
            "Non-trivial = distinct (format, input).",
-    "C18": "16 duration types (int64 ns/us/ms/s, int32 min/h/s, int64 min/h (std::chrono::minutes/hours) and 7-second ticks, int8/int16 s and min, ratio<1,3>, femtoseconds): every remainder "
+    "C18": "19 duration types (three of them - 3/2 s, 2/3 s and 1001/30000 s ticks - for the whole second only; int64 ns/us/ms/s, int32 min/h/s, int64 min/h (std::chrono::minutes/hours) and 7-second ticks, int8/int16 s and min, ratio<1,3>, femtoseconds): every remainder "
            "class within +-3 ticks/seconds of multiples of one second near the epoch, limits of each representation +-100, random "
            "and negative non-multiples, in UTC and two fixed zones; lookup/convert/format fraction fields vs exact rational floor in "
            "128-bit; parse-back into the same type; parse at each coarse type's limits must floor or fail, never wrap. "
